@@ -668,7 +668,9 @@ func allInjections() []injection {
 			case 1:
 				e.InfoURL = "https://example.com/" + strings.Repeat("u", 8192)
 			case 2:
-				e.InfoURL = g.pick("no-scheme.example.com/x", "/just/a/path", "https://", "mailto:someone", "://bad")
+				e.InfoURL = g.pick("no-scheme.example.com/x", "/just/a/path", "https://", "mailto:someone", "://bad",
+					// an authority that names no host: only a port, only a colon, only credentials
+					"https://:8443/docs", "http://:80", "https://:/x", "https://user@:9/x", "https://user:pw@/x")
 			default:
 				e.InfoURL = "http://bad host/%zz"
 			}
@@ -679,13 +681,27 @@ func allInjections() []injection {
 			b := g.export(70)
 			b.Type, b.ResponseType, b.Latency, b.ResponseThreshold, b.AllowTrace, b.AccountTokenPosition = a.Type, "", nil, 0, false, 0
 			a.AccountTokenPosition = 0
-			switch g.rng.Intn(3) {
+			switch g.rng.Intn(8) {
 			case 0:
 				b.Subject = a.Subject
 			case 1:
 				a.Subject, b.Subject = "ovl.x.y", "ovl.>"
-			default:
+			case 2:
 				a.Subject, b.Subject = "ovl.*", "ovl.z"
+			// a subject with MORE wildcard tokens contained in one with fewer: a trailing > swallows them
+			case 3:
+				a.Subject, b.Subject = "ovl.*", "ovl.>"
+			case 4:
+				a.Subject, b.Subject = "*.ovl", ">"
+			case 5:
+				a.Subject, b.Subject = "ovl.*.*", "ovl.>"
+			case 6:
+				a.Subject, b.Subject = "ovl.*.*.b", "ovl.*.>"
+			default:
+				a.Subject, b.Subject = "ovl.>", "ovl.*.*.*"
+			}
+			if g.rng.Intn(2) == 0 {
+				a.Subject, b.Subject = b.Subject, a.Subject
 			}
 			ac.Limits.WildcardExports = true
 			pos := g.rng.Intn(len(ac.Exports) + 1)
@@ -839,7 +855,7 @@ func allInjections() []injection {
 			if g.rng.Intn(2) == 0 {
 				ac.Description = strings.Repeat("y", 9000)
 			} else {
-				ac.InfoURL = g.pick("nohost", "http://", "example.com/x")
+				ac.InfoURL = g.pick("nohost", "http://", "example.com/x", "https://:8443/docs", "http://:80", "https://:/x", "https://user@:9/x")
 			}
 			return true
 		}),
